@@ -365,6 +365,15 @@ func c19NewWorld(t *testing.T) *c19World {
 	if err := os.WriteFile(filepath.Join(w.base, "pcap", "exists.pcap"), c19Pcap(0, c19ExistsMark), 0o644); err != nil {
 		c19Fatal(t, "%v", err)
 	}
+	// entries of the capture directory that are not regular files: a symbolic link whose target (outside the capture
+	// directory) does not exist - a capture that was linked in from another volume and rotated away - and a directory
+	// with a capture's name.  Both names are taken: an upload must fail and create nothing anywhere
+	if err := os.Symlink("../other/rotated-away.pcap", filepath.Join(w.base, "pcap", "dangling.pcap")); err != nil {
+		c19Fatal(t, "%v", err)
+	}
+	if err := os.Mkdir(filepath.Join(w.base, "pcap", "dir.pcap"), 0o755); err != nil {
+		c19Fatal(t, "%v", err)
+	}
 	// named observation of the import queue: the processed-pcap webhook receives the absolute
 	// names of every queue entry the importer took off the queue
 	w.hook = httptest.NewServer(http.HandlerFunc(func(rw http.ResponseWriter, r *http.Request) {
@@ -655,6 +664,7 @@ func c19Targets(maxLen int) []string {
 		"/{BASE}/canary.pcap", "%2f{BASE%2f}%2fcanary.pcap", "/{BASE}/pcap/exists.pcap",
 		"..%2f..%2f..%2f..%2fdeep.pcap", "%2e%2e%2f%2e%2e%2fcanary.pcap", "..%2f..%2f..%2f..%2f..%2f..%2f..%2f..%2f..%2f..%2f{BASE%2f}%2fother%2fabs.pcap",
 		"../../../../deep.pcap", `..\..\canary.pcap`, `..%5c..%5ccanary.pcap`, "exists.pcap/", "exists.pcap%2f", "exists.pcap%2f.", "./exists.pcap", "%2e/exists.pcap",
+		"dangling.pcap", "dir.pcap", "dir.pcap/", "dir.pcap%2fx.pcap",
 		"exists.pcap?x=1", "a.pcap?x=.pcap", "a.pcap;x.pcap", "a.pcap#x.pcap", "a%2epcap", "exists%2epcap", "%65xists.pcap", "EXISTS.PCAP", "exists.pcap%00.pcap",
 	} {
 		add(s)
@@ -663,7 +673,7 @@ func c19Targets(maxLen int) []string {
 }
 
 func c19Nontrivial(target string) bool {
-	for _, m := range []string{"..", "%2e", "%2f", "%5c", `\`, "//", "%00", "exists.pcap", "canary.pcap", "{BASE"} {
+	for _, m := range []string{"..", "%2e", "%2f", "%5c", `\`, "//", "%00", "exists.pcap", "canary.pcap", "{BASE", "dangling.pcap", "dir.pcap"} {
 		if strings.Contains(target, m) {
 			return true
 		}
